@@ -17,6 +17,16 @@ theorem leVal_le (k v : Nat) (h : v < 256 ^ k) : leVal (le k v) = v := by
       rw [Nat.div_lt_iff_lt_mul (by decide)]; rw [Nat.pow_succ] at h; exact h
     rw [ih _ this]; omega
 
+/-- a `k`-byte little-endian field holds a value below `256^k` -/
+theorem leVal_lt (bs : Bytes) (hb : ∀ b ∈ bs, b < 256) : leVal bs < 256 ^ bs.length := by
+  induction bs with
+  | nil => simp [leVal]
+  | cons b bs ih =>
+    have h0 := hb b (by simp)
+    have h1 := ih (fun x hx => hb x (by simp [hx]))
+    simp only [leVal, List.length_cons, Nat.pow_succ]
+    omega
+
 theorem encode_length (e : Entry) : e.encode.length = overhead + e.data.length := by
   simp [Entry.encode, le_length, overhead]; omega
 
